@@ -287,64 +287,70 @@ def afterChild (rec : Task → Ret) (f : PSFields) (stop : StopTok) (child : Chi
   | .crash k => .crash k
   | .fuel => .fuel
 
+/-- read a token (or synthesise the final-whitespace token); `inr` = the loop ends here -/
+def loopRead (env : Env) (f : PSFields) (st : LoopSt) : Sum Token Ret :=
+  match peekTok env.tol (mkPS f) env.s st.pos with
+  | .tok t => .inl t
+  | .eos fs =>
+    if fs.isEmpty then .inr (loopFinish f st none none)
+    else .inl { kind := .char, arg := [], pos := st.pos + fs.length, posEnd := st.pos + fs.length, pre := fs }
+  | .err w ep _ _ => .inr (loopFinish f st none (some { what := tokErrWhat w, pos := some ep, rpos := st.pos }))
+
+/-- flush pending characters together with a non-char token's leading whitespace -/
+def LoopSt.flushBefore (f : PSFields) (st : LoopSt) (t : Token) : LoopSt :=
+  if !st.pend.isEmpty then ({ st with pend := st.pend ++ t.pre } : LoopSt).flush f
+  else if !t.pre.isEmpty then
+    { st with acc := st.acc ++ [Node.chars (t.pos - t.pre.length) t.pos (psInfo f) t.pre] }
+  else st
+
+def errAt (what : ErrWhat) (t : Token) (rpos : Nat) (past : Bool) : PErr :=
+  { what := what, pos := some t.pos, rpos := rpos, recPast := if past then some t else none }
+
+/-- the part of `process_one_token()` that deals with a non-char, non-stop token `t` (leading whitespace
+    already flushed and stripped); the reader is at `st.pos = t.posEnd` -/
+def loopDispatch (env : Env) (rec : Task → Ret) (f : PSFields) (stop : StopTok) (child : ChildPS)
+    (st : LoopSt) (t : Token) : Ret :=
+  match t.kind with
+  | .braceClose => loopFinish f st none (some (errAt .unexpectedCloseBrace t st.pos true))
+  | .endEnv => loopFinish f st none (some (errAt .unexpectedEndEnv t st.pos true))
+  | .comment =>
+    rec (.loop f stop child { st with acc := st.acc ++ [Node.comment t.pos t.posEnd (psInfo f) t.arg t.post] })
+  | .braceOpen =>
+    afterChild rec f stop child st false (rec (.pc (.group (.auto t.arg) false false) (child.get f t) t.pos))
+  | .macro =>
+    match env.ctx.macroSpec t.arg with
+    | none =>
+      if env.tol then rec (.loop f stop child st)
+      else loopFinish f st none (some (errAt .unknownMacro t st.pos false))
+    | some a => afterChild rec f stop child st true (rec (.pc (.macroCall t a) (child.get f t) st.pos))
+  | .beginEnv =>
+    match env.ctx.envSpec t.arg with
+    | none =>
+      if env.tol then rec (.loop f stop child st)
+      else loopFinish f st none (some (errAt .unknownEnv t st.pos false))
+    | some ab => afterChild rec f stop child st true (rec (.pc (.envCall t ab.1 ab.2) (child.get f t) st.pos))
+  | .specials =>
+    match lookupFirst t.arg env.ctx.specials with
+    | none => .crash "specials token without spec"
+    | some a => afterChild rec f stop child st true (rec (.pc (.specialsCall t a) (child.get f t) st.pos))
+  | .mathInline | .mathDisplay =>
+    if (mkPS f).t.mathByOpen.any (fun d => d.1 == t.arg) then
+      afterChild rec f stop child st true (rec (.pc (.math t.arg) (child.get f t) t.pos))
+    else
+      loopFinish f st none (some (errAt .unexpectedCloseMath t st.pos true))
+  | .char => .crash "unreachable"
+
 /-- `process_one_token()` and, through `rec`, the iterations after it -/
 def loopStep (env : Env) (rec : Task → Ret) (f : PSFields) (stop : StopTok) (child : ChildPS) (st : LoopSt) : Ret :=
-  let ps := mkPS f
-  -- read a token (or synthesise the final whitespace token)
-  let tokOrEnd : Sum Token Ret :=
-    match peekTok env.tol ps env.s st.pos with
-    | .tok t => .inl t
-    | .eos fs =>
-      if fs.isEmpty then .inr (loopFinish f st none none)
-      else .inl { kind := .char, arg := [], pos := st.pos + fs.length, posEnd := st.pos + fs.length, pre := fs }
-    | .err w ep _ _ => .inr (loopFinish f st none (some { what := tokErrWhat w, pos := some ep, rpos := st.pos }))
-  match tokOrEnd with
+  match loopRead env f st with
   | .inr r => r
   | .inl t =>
-    let st := { st with pos := t.posEnd }
     if stop.test t then
-      loopFinish f ((st.push t.pre (t.pos - t.pre.length)) |> fun s => { s with pos := t.pos }) (some t) none
+      loopFinish f { (st.push t.pre (t.pos - t.pre.length)) with pos := t.pos } (some t) none
     else if t.kind == .char then
-      rec (.loop f stop child (st.push (t.pre ++ t.arg) (t.pos - t.pre.length)))
+      rec (.loop f stop child { (st.push (t.pre ++ t.arg) (t.pos - t.pre.length)) with pos := t.posEnd })
     else
-      -- flush pending characters together with the token's leading whitespace
-      let st : LoopSt :=
-        if !st.pend.isEmpty then ({ st with pend := st.pend ++ t.pre } : LoopSt).flush f
-        else if !t.pre.isEmpty then
-          { st with acc := st.acc ++ [Node.chars (t.pos - t.pre.length) t.pos (psInfo f) t.pre] }
-        else st
-      let t : Token := { t with pre := [] }
-      match t.kind with
-      | .braceClose =>
-        loopFinish f st none (some { what := .unexpectedCloseBrace, pos := some t.pos, rpos := st.pos, recPast := some t })
-      | .endEnv =>
-        loopFinish f st none (some { what := .unexpectedEndEnv, pos := some t.pos, rpos := st.pos, recPast := some t })
-      | .comment =>
-        rec (.loop f stop child { st with acc := st.acc ++ [Node.comment t.pos t.posEnd (psInfo f) t.arg t.post] })
-      | .braceOpen =>
-        afterChild rec f stop child st false (rec (.pc (.group (.auto t.arg) false false) (child.get f t) t.pos))
-      | .macro =>
-        match env.ctx.macroSpec t.arg with
-        | none =>
-          if env.tol then rec (.loop f stop child st)
-          else loopFinish f st none (some { what := .unknownMacro, pos := some t.pos, rpos := st.pos })
-        | some a => afterChild rec f stop child st true (rec (.pc (.macroCall t a) (child.get f t) st.pos))
-      | .beginEnv =>
-        match env.ctx.envSpec t.arg with
-        | none =>
-          if env.tol then rec (.loop f stop child st)
-          else loopFinish f st none (some { what := .unknownEnv, pos := some t.pos, rpos := st.pos })
-        | some (a, bm) => afterChild rec f stop child st true (rec (.pc (.envCall t a bm) (child.get f t) st.pos))
-      | .specials =>
-        match lookupFirst t.arg env.ctx.specials with
-        | none => .crash "specials token without spec"
-        | some a => afterChild rec f stop child st true (rec (.pc (.specialsCall t a) (child.get f t) st.pos))
-      | .mathInline | .mathDisplay =>
-        if (ps.t.mathByOpen.any (fun d => d.1 == t.arg)) then
-          afterChild rec f stop child st true (rec (.pc (.math t.arg) (child.get f t) t.pos))
-        else
-          loopFinish f st none (some { what := .unexpectedCloseMath, pos := some t.pos, rpos := st.pos, recPast := some t })
-      | .char => .crash "unreachable"
+      loopDispatch env rec f stop child { (st.flushBefore f t) with pos := t.posEnd } { t with pre := [] }
 
 /-! ### the parsers' own `parse()` -/
 
@@ -381,53 +387,66 @@ def bindOk (r : Ret) (k : Res → Nat → Raw) : Raw :=
   | .ok res p => k res p
   | other => .ret other
 
+/-- `get_group_parsing_state`: `none` = `ValueError` -/
+def groupState (delims : GroupDelims) (f : PSFields) : Option PSFields :=
+  match delims with
+  | .auto o => if (mkPS f).t.groupByOpen.any (fun d => d.1 == o) then some f else none
+  | .pair o c => if f.groupDelims.contains (o, c) then some f else some { f with groupDelims := f.groupDelims ++ [(o, c)] }
+
+def GroupDelims.opener : GroupDelims → Str
+  | .auto o => o
+  | .pair o _ => o
+
+/-- `get_parsed_delimiters()[1]` -/
+def groupCloser (delims : GroupDelims) (g : PSFields) : Option Str :=
+  match delims with
+  | .auto o => lookupLast o (mkPS g).t.groupByOpen
+  | .pair _ c => some c
+
+def notFoundErr (t : Token) : PErr :=
+  { what := .openDelimNotFound, pos := some t.pos, rpos := t.posEnd,
+    recNodes := .list (some t.pos) (some t.pos) [], recAt := some t }
+
+/-- `LatexDelimitedGroupParser.parse` once the first token `t` has been read with the group state `g` -/
+def rawGroupTok (rec : Task → Ret) (delims : GroupDelims) (optional allowPre : Bool) (f g : PSFields) (t : Token) : Raw :=
+  if !(!allowPre && !t.pre.isEmpty) && t.kind == .braceOpen && t.arg == delims.opener then
+    match groupCloser delims g with
+    | none => .ret (.crash "KeyError: closing delimiter")
+    | some c =>
+      bindOk (rec (.pc (.general (.braceClose c) true (.group delims.opener g f)) g t.posEnd)) fun res p =>
+        .ret (.ok (.node (Node.group t.pos p (psInfo g) delims.opener c (bodyOf res))) p)
+  else if optional then .ret (.ok .none (moveToToken t true))
+  else .ret (.perr (notFoundErr t))
+
 /-- `LatexDelimitedGroupParser.parse` -/
 def rawGroup (env : Env) (rec : Task → Ret) (delims : GroupDelims) (optional allowPre : Bool) (f : PSFields) (pos : Nat) : Raw :=
-  let gps : Option PSFields :=
-    match delims with
-    | .auto o => if (mkPS f).t.groupByOpen.any (fun d => d.1 == o) then some f else none
-    | .pair o c => if f.groupDelims.contains (o, c) then some f else some { f with groupDelims := f.groupDelims ++ [(o, c)] }
-  match gps with
+  match groupState delims f with
   | none => .ret (.crash "ValueError: not a valid latex group delimiter")
   | some g =>
     match peekTok env.tol (mkPS g) env.s pos with
     | .eos _ => .eos pos
     | .err w ep _ _ => .ret (.perr { what := tokErrWhat w, pos := some ep, rpos := pos })
-    | .tok t =>
-      let opener := match delims with | .auto o => o | .pair o _ => o
-      let okTok := !(!allowPre && !t.pre.isEmpty) && t.kind == .braceOpen && t.arg == opener
-      if !okTok then
-        if optional then .ret (.ok .none (moveToToken t true))
-        else .ret (.perr { what := .openDelimNotFound, pos := some t.pos, rpos := t.posEnd,
-                           recNodes := .list (some t.pos) (some t.pos) [], recAt := some t })
-      else
-        let closer : Option Str := match delims with
-          | .auto o => lookupLast o (mkPS g).t.groupByOpen
-          | .pair _ c => some c
-        match closer with
-        | none => .ret (.crash "KeyError: closing delimiter")
-        | some c =>
-          bindOk (rec (.pc (.general (.braceClose c) true (.group opener g f)) g t.posEnd)) fun res p =>
-            .ret (.ok (.node (Node.group t.pos p (psInfo g) opener c (bodyOf res))) p)
+    | .tok t => rawGroupTok rec delims optional allowPre f g t
+
+def mathFields (f : PSFields) (delim : Str) : PSFields :=
+  ({ f with inMath := true, mathDelim := some delim } : PSFields).normalize
+
+/-- `LatexMathParser.parse` once the first token has been read -/
+def rawMathTok (rec : Task → Ret) (delim : Str) (f : PSFields) (t : Token) : Raw :=
+  if t.pre.isEmpty && (t.kind == .mathInline || t.kind == .mathDisplay) && t.arg == delim then
+    match (mkPS (mathFields f t.arg)).t.expectClose with
+    | none => .ret (.crash "TypeError: no closing math delimiter info")
+    | some cd =>
+      bindOk (rec (.pc (.general (.mathClose (t.kind == .mathDisplay) cd.1) true .same) (mathFields f t.arg) t.posEnd)) fun res p =>
+        .ret (.ok (.node (Node.math t.pos p (psInfo f) (t.kind == .mathDisplay) t.arg cd.1 (bodyOf res))) p)
+  else .ret (.perr (notFoundErr t))
 
 /-- `LatexMathParser.parse` -/
 def rawMath (env : Env) (rec : Task → Ret) (delim : Str) (f : PSFields) (pos : Nat) : Raw :=
   match peekTok env.tol (mkPS f) env.s pos with
   | .eos _ => .eos pos
   | .err w ep _ _ => .ret (.perr { what := tokErrWhat w, pos := some ep, rpos := pos })
-  | .tok t =>
-    let okTok := t.pre.isEmpty && (t.kind == .mathInline || t.kind == .mathDisplay) && t.arg == delim
-    if !okTok then
-      .ret (.perr { what := .openDelimNotFound, pos := some t.pos, rpos := t.posEnd,
-                    recNodes := .list (some t.pos) (some t.pos) [], recAt := some t })
-    else
-      let mf : PSFields := ({ f with inMath := true, mathDelim := some t.arg } : PSFields).normalize
-      match (mkPS mf).t.expectClose with
-      | none => .ret (.crash "TypeError: no closing math delimiter info")
-      | some (c, _) =>
-        let disp := t.kind == .mathDisplay
-        bindOk (rec (.pc (.general (.mathClose disp c) true .same) mf t.posEnd)) fun res p =>
-          .ret (.ok (.node (Node.math t.pos p (psInfo f) disp t.arg c (bodyOf res))) p)
+  | .tok t => rawMathTok rec delim f t
 
 /-- `LatexEnvironmentBodyContentsParser.parse` -/
 def rawEnvBody (rec : Task → Ret) (name : Str) (f : PSFields) (pos : Nat) : Raw :=
@@ -464,28 +483,27 @@ def rawLegacyVerb (env : Env) (f : PSFields) (pos : Nat) : Raw :=
       .ret (.ok (.args (some (p + 1)) (some (e + 1))
                   [.node (Node.chars (p + 1) e (psInfo f) (slice env.s (p + 1) e))]) (e + 1))
 
+/-- the verbatim text up to `\\end{name}` -/
+def legacyVerbEnvFinish (env : Env) (name : Str) (f : PSFields) (pos : Nat) (pre : List Arg) (p : Nat) : Raw :=
+  match findStrFrom env.s ("\\end{".toList ++ name ++ ['}']) p with
+  | none => .ret (.perr { what := .legacyEndNotFound, pos := some p, rpos := pos })
+  | some e =>
+    .ret (.ok (.args (some pos) (some e) (pre ++ [.node (Node.chars p e (psInfo f) (slice env.s p e))])) e)
+
+def startsWithSpace (s : Str) (pos : Nat) : Bool :=
+  match s[pos]? with
+  | some c => isPySpace c
+  | none => false
+
 /-- legacy verbatim / lstlisting environment argument -/
 def rawLegacyVerbEnv (env : Env) (rec : Task → Ret) (name : Str) (optArg : Bool) (f : PSFields) (pos : Nat) : Raw :=
-  let finish (pre : List Arg) (p : Nat) : Raw :=
-    match findStrFrom env.s ("\\end{".toList ++ name ++ ['}']) p with
-    | none => .ret (.perr { what := .legacyEndNotFound, pos := some p, rpos := pos })
-    | some e =>
-      .ret (.ok (.args (some pos) (some e) (pre ++ [.node (Node.chars p e (psInfo f) (slice env.s p e))])) e)
-  if optArg then
-    match env.s[pos]? with
-    | some c =>
-      if isPySpace c then finish [.absent] pos
-      else
-        bindOk (rec (.pc (.group (.pair ['['] [']']) true false) f pos)) fun res _ =>
-          match res with
-          | .node n => finish [.node n] n.posEnd
-          | _ => finish [.absent] pos
-    | none =>
-      bindOk (rec (.pc (.group (.pair ['['] [']']) true false) f pos)) fun res _ =>
-        match res with
-        | .node n => finish [.node n] n.posEnd
-        | _ => finish [.absent] pos
-  else finish [] pos
+  if !optArg then legacyVerbEnvFinish env name f pos [] pos
+  else if startsWithSpace env.s pos then legacyVerbEnvFinish env name f pos [.absent] pos
+  else
+    bindOk (rec (.pc (.group (.pair ['['] [']']) true false) f pos)) fun res _ =>
+      match res with
+      | .node n => legacyVerbEnvFinish env name f pos [.node n] n.posEnd
+      | _ => legacyVerbEnvFinish env name f pos [.absent] pos
 
 /-- `LatexArgumentsParser.parse` / `LatexNoArgumentsParser.parse` / the legacy wrapper -/
 def rawArguments (env : Env) (rec : Task → Ret) (a : ArgsP) (f : PSFields) (pos : Nat) : Raw :=
@@ -514,6 +532,47 @@ def exprFinish (f : PSFields) (nodes : List Node) (pos : Nat) : Ret :=
   | some n => .ok (.node n) pos
   | none => .ok (.node (Node.group pos pos (psInfo f) [] [] (some []))) pos
 
+/-- `_parse_single_token` for a token `t` that is neither macro nor specials and has no leading whitespace -/
+def exprOnTok (env : Env) (rec : Task → Ret) (allowPre : Bool) (skipped : List Node) (f : PSFields) (t : Token) : Ret :=
+  let pi := psInfo f
+  match t.kind with
+  | .comment =>
+    if allowPre then rec (.expr allowPre (skipped ++ [Node.comment t.pos t.posEnd pi t.arg t.post]) f t.posEnd)
+    else if env.tol then rec (.expr allowPre skipped f t.posEnd)
+    else .perr { what := .exprComment, pos := some t.pos, rpos := t.posEnd }
+  | .braceOpen =>
+    match rec (.pc (.group (.auto t.arg) false false) f t.pos) with
+    | .ok (.node n) p => exprFinish f (skipped ++ [n]) p
+    | .ok _ _ => .crash "expression: group parser returned None"
+    | other => other
+  | .braceClose =>
+    .perr { what := .exprCloseBrace, pos := some t.pos, rpos := t.pos,
+            recNodes := .node (Node.chars t.pos t.pos pi []), recAt := some t }
+  | .char => exprFinish f (skipped ++ [Node.chars t.pos t.posEnd pi t.arg]) t.posEnd
+  | .mathInline | .mathDisplay =>
+    let rn := if t.arg.head? == some '\\' then Node.mac t.pos t.posEnd pi t.arg t.post (some [])
+              else Node.chars t.pos t.posEnd pi t.arg
+    .perr { what := .exprMath, pos := some t.pos, rpos := t.posEnd, recNodes := .node rn, recPast := some t }
+  | _ => .crash "expression: unknown token type"
+
+/-- `_parse_single_token` once a token has been read -/
+def exprTok (env : Env) (rec : Task → Ret) (allowPre : Bool) (skipped : List Node) (f : PSFields) (t : Token) : Ret :=
+  let pi := psInfo f
+  if t.kind == .macro then
+    if t.arg == "begin".toList || t.arg == "end".toList then
+      if env.tol then exprFinish f (skipped ++ [Node.mac t.pos t.posEnd pi t.arg t.post none]) t.posEnd
+      else .perr { what := .exprBeginEnd, pos := some t.pos, rpos := t.posEnd }
+    else
+      exprFinish f (skipped ++ [Node.mac t.pos t.posEnd pi t.arg t.post (some [])]) t.posEnd
+  else if t.kind == .specials then
+    exprFinish f (skipped ++ [Node.specials t.pos t.posEnd pi t.arg (some [])]) t.posEnd
+  else if !t.pre.isEmpty then
+    if allowPre then
+      rec (.expr allowPre (skipped ++ [Node.chars (t.pos - t.pre.length) t.pos pi t.pre]) f t.pos)
+    else if env.tol then rec (.expr allowPre skipped f t.posEnd)
+    else .perr { what := .exprWhitespace, pos := some (t.pos - t.pre.length), rpos := t.posEnd }
+  else exprOnTok env rec allowPre skipped f t
+
 def exprStep (env : Env) (rec : Task → Ret) (allowPre : Bool) (skipped : List Node) (f : PSFields) (pos : Nat) : Ret :=
   let ef : PSFields := ({ f with enEnvs := false } : PSFields).normalize
   match peekTok env.tol (mkPS ef) env.s pos with
@@ -521,42 +580,7 @@ def exprStep (env : Env) (rec : Task → Ret) (allowPre : Bool) (skipped : List 
   | .eos _ =>
     if env.tol then exprFinish f skipped pos
     else .perr { what := .exprEOS, pos := some pos, rpos := pos }
-  | .tok t =>
-    let pi := psInfo f
-    match t.kind with
-    | .macro =>
-      if t.arg == "begin".toList || t.arg == "end".toList then
-        if env.tol then exprFinish f (skipped ++ [Node.mac t.pos t.posEnd pi t.arg t.post none]) t.posEnd
-        else .perr { what := .exprBeginEnd, pos := some t.pos, rpos := t.posEnd }
-      else
-        exprFinish f (skipped ++ [Node.mac t.pos t.posEnd pi t.arg t.post (some [])]) t.posEnd
-    | .specials => exprFinish f (skipped ++ [Node.specials t.pos t.posEnd pi t.arg (some [])]) t.posEnd
-    | k =>
-      if !t.pre.isEmpty then
-        if allowPre then
-          rec (.expr allowPre (skipped ++ [Node.chars (t.pos - t.pre.length) t.pos pi t.pre]) f t.pos)
-        else if env.tol then rec (.expr allowPre skipped f t.posEnd)
-        else .perr { what := .exprWhitespace, pos := some (t.pos - t.pre.length), rpos := t.posEnd }
-      else
-      match k with
-      | .comment =>
-        if allowPre then rec (.expr allowPre (skipped ++ [Node.comment t.pos t.posEnd pi t.arg t.post]) f t.posEnd)
-        else if env.tol then rec (.expr allowPre skipped f t.posEnd)
-        else .perr { what := .exprComment, pos := some t.pos, rpos := t.posEnd }
-      | .braceOpen =>
-        match rec (.pc (.group (.auto t.arg) false false) f t.pos) with
-        | .ok (.node n) p => exprFinish f (skipped ++ [n]) p
-        | .ok _ _ => .crash "expression: group parser returned None"
-        | other => other
-      | .braceClose =>
-        .perr { what := .exprCloseBrace, pos := some t.pos, rpos := t.pos,
-                recNodes := .node (Node.chars t.pos t.pos pi []), recAt := some t }
-      | .char => exprFinish f (skipped ++ [Node.chars t.pos t.posEnd pi t.arg]) t.posEnd
-      | .mathInline | .mathDisplay =>
-        let rn := if t.arg.head? == some '\\' then Node.mac t.pos t.posEnd pi t.arg t.post (some [])
-                  else Node.chars t.pos t.posEnd pi t.arg
-        .perr { what := .exprMath, pos := some t.pos, rpos := t.posEnd, recNodes := .node rn, recPast := some t }
-      | _ => .crash "expression: unknown token type"
+  | .tok t => exprTok env rec allowPre skipped f t
 
 /-- `LatexOptionalCharsMarkerParser.parse` for a single marker character -/
 def rawMarker (env : Env) (c : Char) (fullList allowPre : Bool) (f : PSFields) (pos : Nat) : Raw :=
